@@ -68,6 +68,10 @@ pub enum Op {
     /// `n` forced exhaustive GCs, each preceded by a small seeded mutation of the rooted graph
     /// (allocate a few objects, drop a few), so that line/block state wraps are crossed with a changing heap
     GcLoop { m: u8, n: u8, seed: u32 },
+    /// memory_manager::get_finalizers_for(obj(root)): pops every registration of that object
+    GetFinalizersFor { m: u8, root: u8 },
+    /// memory_manager::get_all_finalizers: pops every outstanding registration
+    GetAllFinalizers,
     /// SATB pattern: move the referent of the first non-null field of obj(src) into a field of obj(dst),
     /// null the original field (both through the barrier) and drop every root naming the referent
     Hide { m: u8, src: u8, dst: u8 },
